@@ -8,6 +8,7 @@ if [ -d "$src" ]; then
     out=$(cd /verif && KYUPY_REPO=$src ./check $p 2>&1 | grep -v "^#" | tail -3 | cut -c1-220)
     echo "== $p: $out"
   done
+  git -C /verif checkout -- evidence   # a run against a seeded change must not leave its evidence behind
   exit 0
 fi
 git -C /repo status --short | grep -q . && { echo "/repo not clean"; exit 2; }
@@ -18,3 +19,4 @@ for p in "$@"; do
 done
 git -C /repo checkout -- .
 git -C /repo status --short
+git -C /verif checkout -- evidence   # a run against a seeded change must not leave its evidence behind
